@@ -80,11 +80,10 @@ Qed.
 
 (** A NULL scans into the zero value of a non-pointer field. *)
 Lemma S0 : forall bt v,
-  is_bytes_ty bt = false ->
   scalar_typed bt v = true ->
   go_eqb (hashable v) (hashable (field_value bt DNull)) = is_zero v.
 Proof.
-  intros bt v Hb Ht.
+  intros bt v Ht.
   destruct bt as [k n|n| | | |bt']; try discriminate; destruct v; simpl in Ht; try discriminate;
     cbn [go_eqb hashable field_value is_zero].
   - apply andb_prop in Ht. destruct Ht as [Ht Hz]. apply andb_prop in Ht. destruct Ht as [Hk Hn].
@@ -93,7 +92,11 @@ Proof.
   - apply String.eqb_eq in Ht. subst. rewrite String.eqb_refl. reflexivity.
   - destruct b; reflexivity.
   - reflexivity.
+  - destruct s; [discriminate|reflexivity].
 Qed.
+
+Lemma bytes_not_zero : forall bt v, is_bytes_ty bt = true -> scalar_typed bt v = true -> is_zero v = false.
+Proof. intros bt v Hb H. destruct bt; try discriminate. destruct v; simpl in H; try discriminate. reflexivity. Qed.
 
 Lemma scalar_not_nil : forall bt v, scalar_typed bt v = true -> go_eqb (hashable v) GNil = false /\ go_eqb GNil (hashable v) = false.
 Proof. intros bt v H. destruct bt, v; simpl in H; try discriminate; split; reflexivity. Qed.
@@ -140,7 +143,7 @@ Proof. intros d H. destruct d; try reflexivity. contradiction. Qed.
 
 (** The three shapes of an exactly typed filter value. *)
 Inductive fv_shape (bt : gty) (inull : bool) : goval -> Prop :=
-| ShNil : forall fv, coerce fv = GNil -> valuer inull fv = DNull -> inull = false -> fv_shape bt inull fv
+| ShNil : forall fv, coerce fv = GNil -> valuer inull fv = DNull -> inull = false -> is_bytes_ty bt = false -> fv_shape bt inull fv
 | ShPtr : forall a v, scalar_typed bt v = true -> (inull && is_zero v = false) -> fv_shape bt inull (GPtr a v)
 | ShScalar : forall v, scalar_typed bt v = true -> fv_shape bt inull v.
 
@@ -148,10 +151,14 @@ Lemma exactly_typed_shape : forall c fv, exactly_typed c fv = true -> fv_shape (
 Proof.
   intros c fv H. destruct fv; cbn [exactly_typed] in H;
     try (apply ShScalar; exact H).
-  - apply ShNil; try reflexivity. destruct (c_implicitnull c); [discriminate|reflexivity].
+  - apply andb_prop in H. destruct H as [H1 H2]. apply ShNil; try reflexivity.
+    + destruct (c_implicitnull c); [discriminate|reflexivity].
+    + destruct (is_bytes_ty (base_ty (c_ty c))); [discriminate|reflexivity].
   - apply andb_prop in H. destruct H as [H1 H2]. apply ShPtr; [exact H1|].
     destruct (c_implicitnull c && is_zero fv); [discriminate|reflexivity].
-  - apply ShNil; try reflexivity. destruct (c_implicitnull c); [discriminate|reflexivity].
+  - apply andb_prop in H. destruct H as [H1 H2]. apply ShNil; try reflexivity.
+    + destruct (c_implicitnull c); [discriminate|reflexivity].
+    + destruct (is_bytes_ty (base_ty (c_ty c))); [discriminate|reflexivity].
 Qed.
 
 (** The per-column agreement between the matcher and SQL. *)
@@ -175,7 +182,7 @@ Proof.
     { destruct d; [left; reflexivity| | | | |]; right; (split; [discriminate|exact Hr]). }
     destruct Hd as [->|[Hdn Hcls]].
     + cbn [field_value coerce hashable].
-      inversion Hsh as [fv' Hc Hv _|a v Hv _|v Hv]; subst.
+      inversion Hsh as [fv' Hc Hv _ _|a v Hv _|v Hv]; subst.
       * rewrite Hc, Hv. reflexivity.
       * cbn [coerce valuer]. rewrite (proj1 (scalar_not_nil _ _ Hv)).
         rewrite atom_nonnull by (eapply base_dval_nonnull; exact Hv). reflexivity.
@@ -184,7 +191,7 @@ Proof.
         rewrite atom_nonnull by (eapply base_dval_nonnull; exact Hv). reflexivity.
     + assert (Hf : coerce (field_value (TyPtr bt) d) = field_value bt d) by (destruct d; try reflexivity; contradiction).
       rewrite Hf.
-      inversion Hsh as [fv' Hc Hv _|a v Hv _|v Hv]; subst.
+      inversion Hsh as [fv' Hc Hv _ _|a v Hv _|v Hv]; subst.
       * rewrite Hc, Hv. cbn [hashable atom_value]. rewrite (field_not_nil _ _ Hbt). rewrite sql_is_nonnull by exact Hdn. reflexivity.
       * cbn [coerce valuer]. rewrite atom_nonnull by (eapply base_dval_nonnull; exact Hv). apply S1; assumption.
       * destruct (valuer_scalar _ _ false Hv) as [Hval Hco]. rewrite Hval, Hco. cbn [andb].
@@ -192,20 +199,25 @@ Proof.
   - (* non-pointer column *)
     rewrite Hbase in Hsh. rewrite (coerce_field _ _ Hnp).
     unfold representable in Hr. cbn [c_ty c_implicitnull] in Hr. rewrite Hnp, Hbase in Hr. cbn [orb] in Hr.
-    assert (Hd : (d = DNull /\ inull = true) \/ (d <> DNull /\ class_ok ty d = true /\ (inull = true -> dval_is_zero d = false))).
-    { destruct d; [left; split; [reflexivity|exact Hr]| | | | |]; right;
+    assert (Hd : (d = DNull /\ (inull = true \/ (is_bytes_ty ty = true /\ inull = false))) \/ (d <> DNull /\ class_ok ty d = true /\ (inull = true -> dval_is_zero d = false))).
+    { destruct d; [left; split; [reflexivity|]| | | | |];
+        [destruct inull; [left; reflexivity|right; split; [exact Hr|reflexivity]]| | | | |]; right;
         (split; [discriminate|]); apply andb_prop in Hr; destruct Hr as [Hz Hc]; (split; [exact Hc|]);
         intros ->; cbn [andb] in Hz; (destruct (dval_is_zero _); [discriminate|reflexivity]). }
-    destruct Hd as [[-> ->]|(Hdn & Hcls & Hzero)].
-    + specialize (Hnb eq_refl).
-      inversion Hsh as [fv' Hc Hv Hi|a v Hv Hz|v Hv]; subst.
-      * discriminate.
-      * cbn [coerce valuer]. rewrite (S0 _ _ Hnb Hv). cbn [andb] in Hz. rewrite Hz.
-        rewrite atom_nonnull by (eapply base_dval_nonnull; exact Hv). reflexivity.
-      * destruct (valuer_scalar _ _ true Hv) as [Hval Hco]. rewrite Hval, Hco. cbn [andb].
-        rewrite (S0 _ _ Hnb Hv). destruct (is_zero fv); [reflexivity|].
-        rewrite atom_nonnull by (eapply base_dval_nonnull; exact Hv). reflexivity.
-    + inversion Hsh as [fv' Hc Hv Hi|a v Hv Hz|v Hv]; subst.
+    destruct Hd as [[-> Hnull]|(Hdn & Hcls & Hzero)].
+    + inversion Hsh as [fv' Hc Hv Hi Hb|a v Hv Hz|v Hv]; subst.
+      * destruct Hnull as [Hn|[Hn _]]; [discriminate|]. rewrite Hn in Hb. discriminate.
+      * cbn [coerce valuer]. rewrite (S0 _ _ Hv).
+        assert (Hnz : is_zero v = false).
+        { destruct Hnull as [->|[Hn _]]; [exact Hz|exact (bytes_not_zero _ _ Hn Hv)]. }
+        rewrite Hnz. rewrite atom_nonnull by (eapply base_dval_nonnull; exact Hv). reflexivity.
+      * destruct (valuer_scalar _ _ inull Hv) as [Hval Hco]. rewrite Hval, Hco.
+        rewrite (S0 _ _ Hv). destruct Hnull as [->|[Hn ->]].
+        -- cbn [andb]. destruct (is_zero fv); [reflexivity|].
+           rewrite atom_nonnull by (eapply base_dval_nonnull; exact Hv). reflexivity.
+        -- cbn [andb]. rewrite (bytes_not_zero _ _ Hn Hv).
+           rewrite atom_nonnull by (eapply base_dval_nonnull; exact Hv). reflexivity.
+    + inversion Hsh as [fv' Hc Hv Hi Hb|a v Hv Hz|v Hv]; subst.
       * rewrite Hc, Hv. cbn [hashable atom_value]. rewrite (field_not_nil _ _ Hnp). rewrite sql_is_nonnull by exact Hdn. reflexivity.
       * cbn [coerce valuer]. rewrite atom_nonnull by (eapply base_dval_nonnull; exact Hv). apply S1; assumption.
       * destruct (valuer_scalar _ _ inull Hv) as [Hval Hco]. rewrite Hval, Hco.
